@@ -11,13 +11,13 @@ Fixpoint exec_keys (t : list event) : list string :=
   match t with
   | [] => []
   | EvBody _ p _ :: r => p :: exec_keys r
-  | EvCached _ :: r => exec_keys r
+  | _ :: r => exec_keys r
   end.
 Fixpoint exec_ids (t : list event) : list string :=
   match t with
   | [] => []
   | EvBody _ _ id :: r => id :: exec_ids r
-  | EvCached _ :: r => exec_ids r
+  | _ :: r => exec_ids r
   end.
 
 Definition module_directive (d : directive) : Prop :=
@@ -66,7 +66,7 @@ Qed.
 Lemma in_exec_keys k p id t : In (EvBody k p id) t -> In p (exec_keys t).
 Proof.
   induction t as [|e r IH]; cbn; [auto|]. intros [->|H]; [left; reflexivity|].
-  destruct e; [right|]; auto.
+  destruct e; [right| |]; auto.
 Qed.
 
 Lemma find_file_state cur k u s :
@@ -101,7 +101,7 @@ Proof.
   - destruct F as (L1 & M & C1 & T1 & Lk). destruct I as (N & Cov & Ids).
     assert (Hmod : forall kk, (kk = KUse \/ kk = KForward) ->
       post s (if mem p (cache s1) then ROk (unlock p (note (EvCached p) s1))
-              else match exec_body (load orc content f) p (content id) (note (EvBody kk p id) s1) with
+              else match exec_file content (load orc content f) kk p id s1 with
                    | ROk s2 => ROk (unlock p (add_cache p s2))
                    | e => e
                    end)).
@@ -118,10 +118,12 @@ Proof.
           - rewrite T1, C1, L1. intros q [<-|Hq]; [right; left; reflexivity|].
             apply Cov in Hq as [Hq|Hq]; [left|right; right]; assumption.
           - rewrite T1. intros k0 p0 id0 [H|H]; [inversion H; subst; assumption|eauto]. }
-        pose proof (exec_body_post _ IH (content id) p _ I1 (uf_only id)) as P.
+        pose proof (exec_body_post _ IH (content id) p _ I1 (uf_only id)) as P. unfold exec_file.
         destruct (exec_body _ p (content id) _) as [s2|e s2|]; cbn in P |- *; auto.
         destruct P as ((N2 & Cov2 & Ids2) & L2 & C2). cbn [loading note] in L2. cbn [cache note] in C2.
-        unfold inv. repeat split; cbn [trace cache loading unlock add_cache set_cache set_loading]; auto.
+        assert (Ids3 : forall k0 p0 id0, In (EvBody k0 p0 id0) (EvDone p :: trace s2) -> lookup p0 = Some id0)
+          by (intros k0 p0 id0 [H|H]; [discriminate|eauto]).
+        unfold inv. repeat split; cbn [trace cache loading unlock add_cache set_cache set_loading note exec_keys]; auto.
         + intros q Hq. apply Cov2 in Hq as [Hq|Hq]; [left; right; assumption|].
           rewrite L2, L1 in Hq. destruct Hq as [<-|Hq]; [left; left; reflexivity|].
           right. rewrite L2, L1, (remove1_head p _ M). assumption.
@@ -141,7 +143,7 @@ Theorem once_per_key fuel root rootid s :
   run orc content fuel root rootid = ROk s ->
   NoDup (exec_keys (trace s)) /\ (forall k p id, In (EvBody k p id) (trace s) -> lookup p = Some id).
 Proof.
-  intros Hl H. unfold run in H.
+  intros Hl H. unfold run, exec_file in H.
   assert (I0 : inv (note (EvBody KImport root rootid) (st0 root))).
   { repeat split; cbn.
     - constructor; [intros []|constructor].
@@ -149,7 +151,8 @@ Proof.
     - intros k p id [E|[]]. inversion E; subst. assumption. }
   pose proof (exec_body_post _ (load_post fuel) (content rootid) root _ I0 (uf_only rootid)) as P.
   destruct (exec_body _ root (content rootid) _) as [s2|e s2|]; [|discriminate|discriminate].
-  inversion H; subst. destruct P as ((N & _ & Ids) & _ & _). cbn. auto.
+  inversion H; subst. destruct P as ((N & _ & Ids) & _ & _). cbn [trace unlock set_loading note exec_keys].
+  split; [exact N|]. intros k p id [E|Hin]; [discriminate|eauto].
 Qed.
 
 Lemma exec_ids_keys t :
@@ -159,6 +162,7 @@ Proof.
   induction t as [|e r IH]; intros H; cbn; [reflexivity|].
   destruct e; cbn.
   - rewrite (H k path id (or_introl eq_refl)). f_equal. apply IH. intros; eapply H; right; eauto.
+  - apply IH. intros; eapply H; right; eauto.
   - apply IH. intros; eapply H; right; eauto.
 Qed.
 
@@ -198,29 +202,52 @@ Proof.
   cbn [load]. rewrite F. destruct Hk as [-> | ->]; rewrite Mc; eexists; (split; [reflexivity|]); cbn; rewrite T1; auto.
 Qed.
 
+(* the loader does not hand out one file under two (normalized) names: since fix d80c9be every name
+   that reaches the module cache is normalized, so this is a property of the loader alone (no two load
+   paths or links aliasing a file), not of how the urls are spelled *)
+Theorem once_per_file_injective fuel root rootid s :
+  (forall p q id, lookup p = Some id -> lookup q = Some id -> p = q) ->
+  lookup root = Some rootid ->
+  run orc content fuel root rootid = ROk s -> NoDup (exec_ids (trace s)).
+Proof.
+  intros Hinj Hl H. apply (once_per_file fuel root rootid s Hl H).
+  destruct (once_per_key fuel root rootid s Hl H) as [_ Ids].
+  intros p q Hp Hq E.
+  assert (Hk : forall x, In x (exec_keys (trace s)) -> exists id, lookup x = Some id).
+  { clear - Ids. induction (trace s) as [|e r IH]; [intros x []|]. intros x Hx. destruct e; cbn in Hx.
+    - destruct Hx as [<-|Hx]; [exists id; eapply Ids; left; reflexivity|].
+      apply IH; auto. intros; eapply Ids; right; eauto.
+    - apply IH; auto. intros; eapply Ids; right; eauto.
+    - apply IH; auto. intros; eapply Ids; right; eauto. }
+  destruct (Hk p Hp) as [id Hid]. eapply Hinj; eauto. rewrite <- E. exact Hid.
+Qed.
+
 End Once.
 
-(* ---------- the full statement is false: the spelling witness (F7) ---------- *)
+(* the exact in-memory file set: a name denotes the file of that name *)
+Definition mem_lookup (w : world) (u : string) : option string := if mem u (names w) then Some u else None.
 
-Definition w_spell : world :=
-  [("t.scss", [DLoad KUse "m/lib"; DLoad KUse "./m/lib"]); ("m/lib.scss", [DEmit 1%N])].
-
-Definition C03_statement : Prop :=
-  forall (w : world) (root : string) s,
-    (forall nb d, In nb w -> In d (snd nb) -> module_directive d) ->
-    run_world w MNorm root root = ROk s -> NoDup (exec_ids (trace s)).
-
-Lemma refuted_spelling :
-  exists s, run_world w_spell MNorm "t.scss" "t.scss" = ROk s
-            /\ exec_ids (trace s) = ["m/lib.scss"; "m/lib.scss"; "t.scss"]
-            /\ out s = [1%N; 1%N].
-Proof. eexists. vm_compute. repeat split. Qed.
-
-Lemma statement_refuted : ~ C03_statement.
+(* every in-memory @use/@forward world, every graph, every spelling: no file is executed twice *)
+Theorem once_every_world (w : world) fuel root s :
+  (forall nb d, In nb w -> In d (snd nb) -> module_directive d) ->
+  mem root (names w) = true ->
+  run (orc_of (mem_lookup w)) (assoc_body w) fuel root root = ROk s -> NoDup (exec_ids (trace s)).
 Proof.
-  intros H. destruct refuted_spelling as (s & R & E & _).
-  specialize (H w_spell "t.scss" s).
-  assert (U : forall nb d, In nb w_spell -> In d (snd nb) -> module_directive d).
-  { intros nb d [<-|[<-|[]]] Hd; cbn in Hd; repeat (destruct Hd as [<-|Hd]; [exact I|]); destruct Hd. }
-  specialize (H U R). rewrite E in H. inversion H; subst. apply H2. left. reflexivity.
+  intros U Hr H. apply (once_per_file_injective (mem_lookup w) (assoc_body w)) with (fuel := fuel) (root := root) (rootid := root); auto.
+  - intros id d Hd. clear - U Hd. induction w as [|[n b] r IH]; cbn in Hd; [destruct Hd|].
+    destruct (String.eqb n id).
+    + apply (U (n, b)); [left; reflexivity|exact Hd].
+    + apply IH; auto. intros nb d0 Hnb. apply U. right. exact Hnb.
+  - unfold mem_lookup. intros p q id Hp Hq.
+    destruct (mem p (names w)); [|discriminate]. destruct (mem q (names w)); [|discriminate]. congruence.
+  - unfold mem_lookup. rewrite Hr. reflexivity.
 Qed.
+
+(* the former F7 witness: three spellings of one module, executed once *)
+Definition w_spell : world :=
+  [("t.scss", [DLoad KUse "m/lib"; DLoad KUse "./m/lib"; DLoad KForward "m/../m//lib"]); ("m/lib.scss", [DEmit 1%N])].
+
+Lemma spelling_once :
+  exists s, run_world w_spell MNorm "t.scss" "t.scss" = ROk s
+            /\ exec_ids (trace s) = ["m/lib.scss"; "t.scss"] /\ out s = [1%N].
+Proof. eexists. vm_compute. repeat split. Qed.
